@@ -59,6 +59,7 @@ class Tr:
         self.raises = raises
         self.params = []              # [(lean name, type)] in order of first use
         self.locals = {}              # let-bound python name -> type
+        self.bool_locals = set()      # locals whose value is a Python bool (carried as Nat 0/1)
         self.path = []                # path condition (list of Lean Props)
         self.side = []                # side conditions (Lean Props, already under their path condition)
         self.notes = []
@@ -162,6 +163,8 @@ class Tr:
             try:
                 for v in e.values:
                     x = self.expr(v)
+                    if x[1] == NAT and ast.unparse(v) in self.bool_locals:
+                        x = (f'({x[0]} ≠ 0)', PROP)          # a local that holds a Python bool (carried as 0/1)
                     if x[1] != PROP:
                         raise Untranslatable('and/or over non-boolean operands')
                     parts.append(x[0])
@@ -367,6 +370,7 @@ class Tr:
                 load = ast.parse(key, mode='eval').body
                 val = self.expr(ast.BinOp(left=load, op=s.op, right=s.value))
             v, t = self.num(val)
+            (self.bool_locals.add if val[1] == PROP else self.bool_locals.discard)(key)
             if key in self.binds and key not in self.locals:
                 if self.binds[key][1] == 'Bool':
                     if t != NAT:
@@ -429,7 +433,8 @@ def pick(fn, how):
                                (Python source of one statement / expression; `__ANY..__` = any expression; a final `...` in a
                                block = any remaining statements); e.g. "if __X__:\n    return"
        ('stmts', P1, P2, RES)  the consecutive statements (of one block, anywhere in the function) from the only statement
-                               matching pattern P1 through the next one matching P2, followed by `return RES`"""
+                               matching pattern P1 through the next one matching P2, followed by `return RES`; RES is Python
+                               source or a nested expression selector such as ('match', PATTERN)"""
     kind = how[0]
     if kind == 'whole':
         return 'block', fn.body
@@ -487,7 +492,13 @@ def pick(fn, how):
                     if js:
                         hits.append(lst[i:js[0] + 1])
         stmts = _one(hits, f'statements `{how[1][:40]}` .. `{how[2][:40]}`')
-        return 'block', list(stmts) + [ast.Return(value=ast.parse(how[3], mode='eval').body)]
+        if isinstance(how[3], (tuple, list)):       # the result is itself a selected expression of the function (e.g. an `if` test)
+            what, res = pick(fn, tuple(how[3]))
+            if what != 'expr':
+                raise Untranslatable('stmts: the result selector must select an expression')
+        else:
+            res = ast.parse(how[3], mode='eval').body
+        return 'block', list(stmts) + [ast.Return(value=res)]
     raise Untranslatable(f'selector {kind}')
 
 
